@@ -4,7 +4,7 @@ import random
 import re
 import time
 
-from harness import common, core, gens, schemes, text, vers
+from harness import common, core, dense, gens, schemes, text, vers
 
 CHARS = "0123456789.abzAvVxX-_+~^:!*<>=|/,;()[]{} \t@"
 NONASCII = ["１.２", "1.0²", "vers:npm/１", ">=١", "1.0é", "α", "１", "vers:nрm/1.0", "≥1.0", "1.0–2.0"]
@@ -179,6 +179,24 @@ def run(ctx):
         for _ in range(0 if len(near) < 2 else (6 if ctx.tier == "quick" else 40)):
             s = f"vers:{scheme}/" + "|".join(r.choice([">=", "<", "", "!=", "<=", ">"]) + x for x in r.sample(near, r.randint(2, min(4, len(near)))))
             attempt("from_string", (ValueError,), lambda: vr.VersionRange.from_string(s), s, "near")
+    # ranges of two or three texts of one dense family (same base; every decoration also applied twice: "1:1:2.0", "2.0--",
+    # accepted or not): what the class accepts is sorted by the parser, what it refuses must be refused as declared
+    for scheme, rcls in list(vr.RANGE_CLASS_BY_SCHEMES.items()):
+        cls = rcls.version_class
+        bases = dense.PLAIN[:3] + ["1:2.3", "1:2.3-4"] + [v.string for v in gens.valid_pool(r, cls, 2 if ctx.tier == "quick" else 12)]
+        for t in bases:
+            for kind, fam in dense.family_texts(cls, t):
+                if kind == "decorations":
+                    fam = fam + [y for x in fam[1:6] for _k, f2 in dense.family_texts(cls, x) if _k == "decorations" for y in f2[1:]]
+                fam = [x for x in dict.fromkeys(fam) if "|" not in x and all(ord(c) < 128 for c in x)]
+                if len(fam) < 2:
+                    continue
+                for x in fam[1:]:                       # the base with each variation
+                    s = f"vers:{scheme}/{fam[0]}|{x}"
+                    attempt("from_string", (ValueError,), lambda: vr.VersionRange.from_string(s), s, "dense")
+                for _ in range(2 if ctx.tier == "quick" else 30):
+                    s = f"vers:{scheme}/" + "|".join(r.choice(["", "", ">=", "<", "!="]) + x for x in r.sample(fam, min(len(fam), r.randint(2, 3))))
+                    attempt("from_string", (ValueError,), lambda: vr.VersionRange.from_string(s), s, "dense")
     for s in ["", " ", "vers:", "vers:npm", "vers:npm/", "vers:/1", "npm/1", "vers:npm/|", "vers:npm/*|*", "vers:npm/>=", "vers:npm/1|1"] + NONASCII:
         attempt("from_string", (ValueError,), lambda: vr.VersionRange.from_string(s), s, "edge")
     # ---- native converters
